@@ -98,6 +98,10 @@ STATEMENT_STATUS = {
     "alpha_bijective": "proved for every n > 0: the code's letters numeral read in bijective base 26 is n (what the code "
                        "does instead of Table 159)",
     "C17_label_strict": "proved: with settings.STRICT = True a conforming tree gives exactly the default-mode labels",
+    "C17_nametree_sound": "proved for EVERY name tree (unsorted, duplicates, wrong/missing Limits, Names+Kids): a returned "
+                          "value is associated with the key in the tree",
+    "C17_nametree_last_wins": "proved: in a Names array the LAST duplicate of a key wins (dict semantics), any order",
+    "C17_dest_sound": "proved for every catalog: string results come from the name tree, name results from /Dests",
     "C17_nametree_sorted": "proved: flattening of a conforming name tree is strictly ascending (keys unique)",
     "C17_outline_terminates": "proved for every finite object graph incl. cycles, shared and dangling links: budget "
                               "|store|+1 never exhausted, no object visited twice",
@@ -1697,6 +1701,26 @@ def eval_names(ctx: C.Ctx, batch: Batch, case, wild: bool) -> None:
                            {"component": "names-history", "observation": hist[0]}))
     it = Intern()
     npages = case.get("npages", 3)
+    # soundness on EVERY catalog, conforming or not (C17_nametree_sound / C17_dest_sound): a value returned for a
+    # string is associated with that key in the name tree, one returned for a name object with that name in /Dests
+    for q, r in zip(case["queries"], impl):
+        if not r.startswith("V:"):
+            continue
+        try:
+            if q[0] == "b":
+                cands = [expected_dest_canon(v, npages) for k, v in flatten_names(tree) if k == unh(q[1])] \
+                    if tree and not case.get("names_cat_missing") else []
+            else:
+                cands = [expected_dest_canon(case["dict"][q[1]], npages)] \
+                    if case.get("dict") and q[1] in case["dict"] else []
+        except (ValueError, TypeError, KeyError, IndexError):
+            continue                      # junk values of wild cases have no canonical form
+        ctx.branch("dest:sound:" + ("wild" if wild else "domain"))
+        if r[2:] not in cands:
+            ctx.fail(C.Failure("get_dest(name) returns a value the name tree / Dests dictionary does not associate with "
+                               "that name", dict(case, queries=[q]), "one of %r" % (cands,), r,
+                               {"component": "names-sound", "key_type": "str" if q[0] == "s" else "bytes"}))
+            break
     # register expected values first so that ids are stable
     tsx = "-" if (tree is None or case.get("names_cat_missing")) else sx_nametree(tree, it, npages)
     dsx = "-" if case.get("dict") is None else "(D" + "".join(
